@@ -94,8 +94,52 @@ def arg_mutations(fn, mod, model):
     params = {a.arg for a in fn.args.posonlyargs + fn.args.args + fn.args.kwonlyargs} - {"self", "cls"}
     consts = set(MODULE_MUTABLES.get(mod, []))
     roots = definite_aliases(fn, params | consts)
-    # names re-bound from a fresh copy are not aliases
+    # shallow copies ({**a}, dict(a), a.copy(), copy.copy(a), list(a), a[:]) are fresh one level deep only: what they
+    # contain is still the original's; an element taken out of one is an alias of the original's element
+    shallow = {}
+
+    def shallow_sources(v):
+        src = []
+        if isinstance(v, ast.Dict):
+            src = [val for k, val in zip(v.keys, v.values) if k is None]
+        elif isinstance(v, ast.Call) and ast.unparse(v.func) in ("dict", "list", "copy.copy", "copy") and len(v.args) == 1:
+            src = [v.args[0]]
+        elif isinstance(v, ast.Call) and isinstance(v.func, ast.Attribute) and v.func.attr == "copy" and not v.args:
+            src = [v.func.value]
+        elif isinstance(v, ast.Subscript) and isinstance(v.slice, ast.Slice) and v.slice.lower is None and v.slice.upper is None:
+            src = [v.value]
+        elif isinstance(v, ast.BinOp) and isinstance(v.op, ast.BitOr):
+            src = [v.left, v.right]
+        return [base_name(s) for s in src if base_name(s) in roots]
+    for x in ast.walk(fn):
+        if isinstance(x, ast.Assign) and len(x.targets) == 1 and isinstance(x.targets[0], ast.Name):
+            ss = shallow_sources(x.value)
+            if ss:
+                shallow[x.targets[0].id] = roots[ss[0]]
+    for _ in range(3):
+        for x in ast.walk(fn):
+            if isinstance(x, ast.Assign) and len(x.targets) == 1 and isinstance(x.targets[0], ast.Name) and isinstance(x.value, ast.Subscript):
+                b = base_name(x.value)
+                if b in shallow and x.targets[0].id not in roots:
+                    roots[x.targets[0].id] = shallow[b]
     out = []
+    for x in ast.walk(fn):
+        tg = x.targets if isinstance(x, (ast.Assign, ast.Delete)) else ([x.target] if isinstance(x, ast.AugAssign) else [])
+        for t in tg:
+            for tt in (t.elts if isinstance(t, (ast.Tuple, ast.List)) else [t]):
+                depth, cur = 0, tt
+                while isinstance(cur, (ast.Subscript, ast.Attribute)):
+                    depth += 1
+                    cur = cur.value
+                if isinstance(cur, ast.Name) and cur.id in shallow and depth >= 2:
+                    out.append((x.lineno, "%s (through the shallow copy '%s')" % (ast.unparse(tt), cur.id), shallow[cur.id]))
+        if isinstance(x, ast.Call) and isinstance(x.func, ast.Attribute) and x.func.attr in MUTATORS:
+            depth, cur = 0, x.func.value
+            while isinstance(cur, (ast.Subscript, ast.Attribute)):
+                depth += 1
+                cur = cur.value
+            if isinstance(cur, ast.Name) and cur.id in shallow and depth >= 1:
+                out.append((x.lineno, "%s.%s() (through the shallow copy '%s')" % (ast.unparse(x.func.value), x.func.attr, cur.id), shallow[cur.id]))
     for x in ast.walk(fn):
         tgts = []
         if isinstance(x, ast.Assign):
